@@ -206,6 +206,11 @@ def judge(case, obs, model):
             issues.append(Issue("oracle", b, "scoped-handle-yields-after-exit-with-failing-aclose"))
         if b["closes"] != 1:
             issues.append(Issue("oracle", b, "scope-exit-closes-%d-times" % b["closes"]))
+        if model is not None:
+            if "error" in model:
+                issues.append(Issue("A", model))
+            elif model != b:
+                issues.append(Issue("A", {"asyncstdlib": b, "model": model}))
         return issues
     issues = c07.judge(case, obs, model)
     if "with_error" in obs:
@@ -389,7 +394,8 @@ _c07_nontrivial = c07.nontrivial
 
 def model_request(case):  # noqa: F811
     if case.get("family") == "badclose":
-        return None
+        # Machines/ScopeExit.lean: the nest of scopes left while the underlying aclose() raises / is cancelled / suspends
+        return {"m": "scopeexit", "depth": case["depth"], "n": 6, "mode": case["mode"], "taken": 1}
     return _c07_model_request(case)
 
 
